@@ -198,8 +198,13 @@ def fault_jobs(tier):
         return dict(bad=S.array([v, 0.5]), good=S.array([1.0, 0.0]), cents=S.array([100.0, 200.0]))
     js.append(fault_job('melody.voicing_measures[voicing outside [0,1]]', b_voicing, lambda inp: MEL.voicing_measures(inp['good'], inp['bad']),
                         ['melody.validate_voicing']))
-    js.append(fault_job('melody.raw_pitch_accuracy[ref voicing outside [0,1]]', b_voicing,
-                        lambda inp: MEL.raw_pitch_accuracy(inp['bad'], inp['cents'], inp['good'], inp['cents']), ['melody.raw_pitch_accuracy']))
+    js.append(fault_job('melody.voicing_measures[reference voicing outside [0,1]]', b_voicing, lambda inp: MEL.voicing_measures(inp['bad'], inp['good']),
+                        ['melody.validate_voicing']))
+    for nm, fn in (('raw_pitch_accuracy', MEL.raw_pitch_accuracy), ('raw_chroma_accuracy', MEL.raw_chroma_accuracy), ('overall_accuracy', MEL.overall_accuracy)):
+        js.append(fault_job('melody.%s[ref voicing outside [0,1]]' % nm, b_voicing,
+                            lambda inp, fn=fn: fn(inp['bad'], inp['cents'], inp['good'], inp['cents']), ['melody.' + nm]))
+        js.append(fault_job('melody.%s[est voicing outside [0,1]]' % nm, b_voicing,
+                            lambda inp, fn=fn: fn(inp['good'], inp['cents'], inp['bad'], inp['cents']), ['melody.' + nm]))
 
     def b_len(ctx):
         return dict(v3=S.array([ctx.real('a'), 0.5, 1.0]) * 0 + 0.5, v2=S.array([1.0, 0.0]), c2=S.array([100.0, 200.0]), c3=S.array([1.0, 2.0, 3.0]))
@@ -207,6 +212,10 @@ def fault_jobs(tier):
         js.append(fault_job('melody.%s[voicing arrays of unequal length]' % nm, b_len, lambda inp, fn=fn: fn(inp['v3'], inp['c3'], inp['v2'], inp['c2']),
                             ['melody.' + nm, 'melody.validate']))
         js.append(fault_job('melody.%s[cent array length mismatch]' % nm, b_len, lambda inp, fn=fn: fn(inp['v2'], inp['c3'], inp['v2'], inp['c2']),
+                            ['melody.' + nm, 'melody.validate']))
+        js.append(fault_job('melody.%s[estimated cent array length mismatch]' % nm, b_len, lambda inp, fn=fn: fn(inp['v2'], inp['c2'], inp['v2'], inp['c3']),
+                            ['melody.' + nm, 'melody.validate']))
+        js.append(fault_job('melody.%s[estimated voicing longer]' % nm, b_len, lambda inp, fn=fn: fn(inp['v2'], inp['c2'], inp['v3'], inp['c3']),
                             ['melody.' + nm, 'melody.validate']))
 
     # --- transcription: non-positive pitch, unequal lengths
